@@ -1,8 +1,28 @@
-(** Genesis round trip (C19): EVM — proofs. *)
+(** Genesis round trip (C19): EVM — proofs.
+    Everything is proved for an arbitrary selection [sel] of the account kinds
+    that ExportGenesis visits, under the two hypotheses that matter:
+    [sel_sound] (only kinds that InitGenesis accepts are exported) and
+    [sel_covers] (every account that holds code or storage is selected).  The
+    selection of the code, by the interface EthAccountI, satisfies both for
+    every state; the selection by the concrete type *EthAccount violates the
+    second as soon as a clawback vesting account holds a contract. *)
 From Coq Require Import ZArith NArith List Bool Lia.
 From stdpp Require Import gmap.
 From HV Require Import Genesis.Common Genesis.EvmModel.
 Import ListNotations.
+
+Lemma nodup_fst_filter {V} (f : N * V -> bool) (l : list (N * V)) :
+  NoDup l.*1 -> NoDup (List.filter f l).*1.
+Proof.
+  induction l as [|x l IH]; simpl; intros Hnd; [done|].
+  inversion Hnd as [|? ? Hnotin Hnd']; subst.
+  destruct (f x); simpl; [|by apply IH].
+  constructor; [|by apply IH].
+  intros Hin. apply Hnotin.
+  apply elem_of_list_fmap in Hin as (y & -> & Hy).
+  apply elem_of_list_fmap. exists y. split; [done|].
+  apply elem_of_list_In in Hy. apply filter_In in Hy as [Hy _]. by apply elem_of_list_In.
+Qed.
 
 Section Evm.
   Variable hash : N -> N.
@@ -14,11 +34,27 @@ Section Evm.
 
   Definition consistent (m : gmap N N) : Prop := forall h c, m !! h = Some c -> c <> 0%N /\ hash c = h.
 
+  (** the account at [a] implements EthAccountI: it can carry a code hash *)
+  Definition holds_evm (auth : gmap N auth_acc) (a : N) : Prop :=
+    exists k ch, auth !! a = Some (k, ch) /\ implements_eth k = true.
+
   (** invariant of (auth accounts, evm state) *)
-  Definition evm_wf (auth : gmap N N) (s : evm_state) : Prop :=
+  Definition evm_wf (auth : gmap N auth_acc) (s : evm_state) : Prop :=
     consistent (ev_codes s) /\
-    (forall a, stor s a <> ∅ -> is_Some (auth !! a)) /\
+    (forall a, stor s a <> ∅ -> holds_evm auth a) /\
     (valid (ev_params s) = true /\ norm (ev_params s) = ev_params s).
+
+  (** ** the two hypotheses about the selection *)
+  Definition sel_sound (sel : acc_kind -> bool) : Prop :=
+    forall k, sel k = true -> implements_eth k = true.
+  Definition sel_covers (sel : acc_kind -> bool) (auth : gmap N auth_acc) (s : evm_state) : Prop :=
+    forall a k ch, auth !! a = Some (k, ch) -> implements_eth k = true ->
+      stor s a <> ∅ \/ is_Some (ev_codes s !! ch) -> sel k = true.
+
+  Lemma implements_sound : sel_sound implements_eth.
+  Proof. by intros k. Qed.
+  Lemma implements_covers auth s : sel_covers implements_eth auth s.
+  Proof. by intros a k ch _ H _. Qed.
 
   (** ** the code store after the loop *)
   Lemma codes_step_consistent m acc : consistent m -> consistent (codes_step hash m acc).
@@ -95,81 +131,92 @@ Section Evm.
   Qed.
 
   (** ** round trip *)
-  Definition exp_accs (auth : gmap N N) (s : evm_state) : list evm_acc :=
-    map (fun ac : N * N => mk_ea ac.1 (default 0%N (ev_codes s !! ac.2)) (export_map (stor s ac.1)))
-        (export_map auth).
+  Definition exp_accs (sel : acc_kind -> bool) (auth : gmap N auth_acc) (s : evm_state) : list evm_acc :=
+    map (fun ac : N * auth_acc => mk_ea ac.1 (default 0%N (ev_codes s !! ac.2.2)) (export_map (stor s ac.1)))
+        (List.filter (fun ac : N * auth_acc => sel ac.2.1) (export_map auth)).
 
-  Lemma exp_accs_addrs auth s : map ea_addr (exp_accs auth s) = (export_map auth).*1.
+  Lemma exp_accs_addrs sel auth s :
+    map ea_addr (exp_accs sel auth s) = (List.filter (fun ac : N * auth_acc => sel ac.2.1) (export_map auth)).*1.
   Proof. unfold exp_accs. rewrite map_map. simpl. done. Qed.
 
-  Lemma elem_of_exp_accs auth s acc :
-    acc ∈ exp_accs auth s <->
-    exists a ch, auth !! a = Some ch /\ acc = mk_ea a (default 0%N (ev_codes s !! ch)) (export_map (stor s a)).
+  Lemma elem_of_exp_accs sel auth s acc :
+    acc ∈ exp_accs sel auth s <->
+    exists a k ch, auth !! a = Some (k, ch) /\ sel k = true /\
+      acc = mk_ea a (default 0%N (ev_codes s !! ch)) (export_map (stor s a)).
   Proof.
     unfold exp_accs. rewrite elem_of_list_In, in_map_iff. split.
-    - intros [[a ch] [<- Hin]]. exists a, ch. split; [|done]. by apply elem_of_export_map, elem_of_list_In.
-    - intros (a & ch & Ha & ->). exists (a, ch). split; [done|]. by apply elem_of_list_In, elem_of_export_map.
+    - intros [[a [k ch]] [<- Hin]]. apply filter_In in Hin as [Hin Hsel]. simpl in *.
+      exists a, k, ch. split; [|done]. by apply elem_of_export_map, elem_of_list_In.
+    - intros (a & k & ch & Ha & Hsel & ->). exists (a, (k, ch)). split; [done|].
+      apply filter_In. split; [|done]. by apply elem_of_list_In, elem_of_export_map.
   Qed.
 
-  Lemma exp_accs_find auth s a :
-    list_find (fun acc => ea_addr acc = a) (exp_accs auth s)
-    = match auth !! a with
-      | Some ch => Some (0%nat, mk_ea a (default 0%N (ev_codes s !! ch)) (export_map (stor s a)))
-      | None => None
-      end \/
-    exists i ch, auth !! a = Some ch /\
-      list_find (fun acc => ea_addr acc = a) (exp_accs auth s)
-      = Some (i, mk_ea a (default 0%N (ev_codes s !! ch)) (export_map (stor s a))).
+  (** looking an address up in the exported list: its entry if the account is selected, nothing otherwise *)
+  Lemma exp_accs_find sel auth s a :
+    match list_find (fun acc => ea_addr acc = a) (exp_accs sel auth s) with
+    | Some (_, acc) => exists k ch, auth !! a = Some (k, ch) /\ sel k = true /\
+                         acc = mk_ea a (default 0%N (ev_codes s !! ch)) (export_map (stor s a))
+    | None => forall k ch, auth !! a = Some (k, ch) -> sel k = false
+    end.
   Proof.
-    destruct (list_find _ (exp_accs auth s)) as [[i acc]|] eqn:E.
-    - right. apply list_find_Some in E as (Hi & Ha & _).
-      apply elem_of_list_lookup_2, elem_of_exp_accs in Hi as (a' & ch & Hch & ->).
+    destruct (list_find _ (exp_accs sel auth s)) as [[i acc]|] eqn:E.
+    - apply list_find_Some in E as (Hi & Ha & _).
+      apply elem_of_list_lookup_2, elem_of_exp_accs in Hi as (a' & k & ch & Hch & Hsel & ->).
       simpl in Ha. subst a'. eauto.
-    - left. destruct (auth !! a) as [ch|] eqn:Ea; [|done]. exfalso.
+    - intros k ch Ha. destruct (sel k) eqn:Hsel; [|done]. exfalso.
       rewrite list_find_None, Forall_forall in E.
       apply (E (mk_ea a (default 0%N (ev_codes s !! ch)) (export_map (stor s a)))); [|done].
-      apply elem_of_exp_accs. eauto.
+      apply elem_of_exp_accs. eauto 10.
   Qed.
 
-  Lemma evm_init_export_obs auth s :
-    evm_wf auth s ->
-    exists s', evm_init hash valid norm auth (evm_export auth s) = Some s' /\
+  (** what InitGenesis makes of an exported document: the projection of the state that the
+      EVM can observe -- parameters, the storage of every address, the code behind the code
+      hash of every account that has one *)
+  Lemma evm_init_export_obs sel auth s :
+    sel_sound sel -> sel_covers sel auth s -> evm_wf auth s ->
+    exists s', evm_init hash valid norm auth (evm_export_sel sel auth s) = Some s' /\
       ev_params s' = ev_params s /\
       (forall a, stor s' a = stor s a) /\
-      (forall a ch, auth !! a = Some ch -> default 0%N (ev_codes s' !! ch) = default 0%N (ev_codes s !! ch)) /\
+      (forall a k ch, auth !! a = Some (k, ch) -> implements_eth k = true ->
+         default 0%N (ev_codes s' !! ch) = default 0%N (ev_codes s !! ch)) /\
       evm_wf auth s'.
   Proof.
-    intros (Hc & Hs & Hv & Hn).
-    unfold evm_init, evm_export; simpl. fold (exp_accs auth s).
+    intros Hsound Hcov (Hc & Hs & Hv & Hn).
+    unfold evm_init, evm_export_sel; simpl. fold (exp_accs sel auth s).
     rewrite Hn, Hv; simpl.
-    assert (Hok : forallb (acc_ok hash auth) (exp_accs auth s) = true).
+    assert (Hok : forallb (acc_ok hash auth) (exp_accs sel auth s) = true).
     { apply forallb_forall. intros acc Hin.
-      apply elem_of_list_In, elem_of_exp_accs in Hin as (a & ch & Ha & ->).
-      unfold acc_ok; simpl. rewrite Ha.
+      apply elem_of_list_In, elem_of_exp_accs in Hin as (a & k & ch & Ha & Hsel & ->).
+      unfold acc_ok; simpl. rewrite Ha, (Hsound _ Hsel). simpl.
       destruct (ev_codes s !! ch) as [c|] eqn:Ec; simpl; [|done].
       destruct (Hc _ _ Ec) as [_ Hh]. rewrite Hh, N.eqb_refl. apply orb_true_r. }
     rewrite Hok; simpl. eexists. split; [reflexivity|]. simpl.
-    assert (Hnd : NoDup (map ea_addr (exp_accs auth s))).
-    { rewrite exp_accs_addrs. apply export_map_nodup. }
-    assert (Hstor : forall a, default ∅ (fold_left stor_step (exp_accs auth s) ∅ !! a) = stor s a).
+    assert (Hnd : NoDup (map ea_addr (exp_accs sel auth s))).
+    { rewrite exp_accs_addrs. apply nodup_fst_filter, export_map_nodup. }
+    assert (Hstor : forall a, default ∅ (fold_left stor_step (exp_accs sel auth s) ∅ !! a) = stor s a).
     { intros a. rewrite stor_fold_lookup by done. rewrite lookup_empty; simpl.
-      destruct (exp_accs_find auth s a) as [H|(i & ch & Ha & H)]; rewrite H.
-      - destruct (auth !! a) as [ch|] eqn:Ea; simpl.
-        + apply import_export_map.
-        + destruct (decide (stor s a = ∅)) as [->|Hne]; [done|]. apply Hs in Hne. rewrite Ea in Hne. by destruct Hne.
-      - simpl. apply import_export_map. }
+      pose proof (exp_accs_find sel auth s a) as Hf.
+      destruct (list_find _ (exp_accs sel auth s)) as [[i acc]|].
+      - destruct Hf as (k & ch & _ & _ & ->). simpl. apply import_export_map.
+      - (* not exported: then it holds no storage, or the selection would have had to cover it *)
+        destruct (decide (stor s a = ∅)) as [->|Hne]; [done|]. exfalso.
+        destruct (Hs _ Hne) as (k & ch & Ha & Himpl).
+        pose proof (Hcov _ _ _ Ha Himpl (or_introl Hne)) as Hsel.
+        rewrite (Hf _ _ Ha) in Hsel. done. }
     assert (Hcons0 : consistent (∅ : gmap N N)) by (intros h c H; by rewrite lookup_empty in H).
-    assert (Hcode : forall a ch, auth !! a = Some ch ->
-       default 0%N (fold_left (codes_step hash) (exp_accs auth s) ∅ !! ch) = default 0%N (ev_codes s !! ch)).
-    { intros a ch Ha.
+    assert (Hcode : forall a k ch, auth !! a = Some (k, ch) -> implements_eth k = true ->
+       default 0%N (fold_left (codes_step hash) (exp_accs sel auth s) ∅ !! ch) = default 0%N (ev_codes s !! ch)).
+    { intros a k ch Ha Himpl.
       destruct (ev_codes s !! ch) as [c|] eqn:Ec; simpl.
       - destruct (Hc _ _ Ec) as [Hc0 Hh].
-        assert (fold_left (codes_step hash) (exp_accs auth s) ∅ !! ch = Some c) as ->; [|done].
+        assert (Hsel : sel k = true).
+        { apply (Hcov _ _ _ Ha Himpl). right. by rewrite Ec. }
+        assert (fold_left (codes_step hash) (exp_accs sel auth s) ∅ !! ch = Some c) as ->; [|done].
         apply codes_fold_lookup; [done|]. right. split; [done|]. split; [done|].
-        eexists. split; [apply elem_of_exp_accs; eauto|]. simpl. by rewrite Ec.
+        eexists. split; [apply elem_of_exp_accs; eauto 10|]. simpl. by rewrite Ec.
       - destruct (fold_left _ _ _ !! ch) as [c'|] eqn:E'; [|done]. exfalso.
         apply (proj1 (codes_fold_lookup _ _ _ _ Hcons0)) in E' as [E'|(Hc0 & Hh & acc & Hin & Hcode)]; [by rewrite lookup_empty in E'|].
-        apply elem_of_exp_accs in Hin as (a' & ch' & Ha' & ->). simpl in Hcode.
+        apply elem_of_exp_accs in Hin as (a' & k' & ch' & Ha' & _ & ->). simpl in Hcode.
         destruct (ev_codes s !! ch') as [c''|] eqn:Ec'; simpl in Hcode; [|congruence].
         subst c''. destruct (Hc _ _ Ec') as [_ Hh']. congruence. }
     split; [done|]. split; [exact Hstor|]. split; [exact Hcode|].
@@ -180,36 +227,77 @@ Section Evm.
   Qed.
 
   (** exporting the re-imported state gives the same document *)
-  Theorem evm_export_init_export auth s :
-    evm_wf auth s ->
-    evm_export auth <$> evm_init hash valid norm auth (evm_export auth s) = Some (evm_export auth s).
+  Theorem evm_sel_export_init_export sel auth s :
+    sel_sound sel -> sel_covers sel auth s -> evm_wf auth s ->
+    evm_export_sel sel auth <$> evm_init hash valid norm auth (evm_export_sel sel auth s)
+      = Some (evm_export_sel sel auth s).
   Proof.
-    intros Hwf. destruct (evm_init_export_obs auth s Hwf) as (s' & -> & Hp & Hst & Hcd & _). simpl.
-    f_equal. unfold evm_export. rewrite Hp. f_equal.
-    apply map_ext_in. intros [a ch] Hin. simpl.
+    intros Hsound Hcov Hwf.
+    destruct (evm_init_export_obs sel auth s Hsound Hcov Hwf) as (s' & -> & Hp & Hst & Hcd & _). simpl.
+    f_equal. unfold evm_export_sel. rewrite Hp. f_equal.
+    apply map_ext_in. intros [a [k ch]] Hin. simpl.
+    apply filter_In in Hin as [Hin Hsel]. simpl in Hsel.
     apply elem_of_list_In, elem_of_export_map in Hin.
-    rewrite (Hcd _ _ Hin), Hst. done.
+    rewrite (Hcd _ _ _ Hin (Hsound _ Hsel)), Hst. done.
+  Qed.
+
+  Lemma code_at_eq auth s s' :
+    (forall a k ch, auth !! a = Some (k, ch) -> implements_eth k = true ->
+       default 0%N (ev_codes s' !! ch) = default 0%N (ev_codes s !! ch)) ->
+    forall a, code_at auth s' a = code_at auth s a.
+  Proof.
+    intros Hcd a. unfold code_at. destruct (auth !! a) as [[k ch]|] eqn:Ea; [|done].
+    destruct (implements_eth k) eqn:Ek; [|done]. by apply (Hcd _ _ _ Ea).
   Qed.
 
   (** every query (parameters, code of an address, one storage slot, all storage
       of an address) answers the same *)
+  Theorem evm_sel_query_equiv sel auth s q :
+    sel_sound sel -> sel_covers sel auth s -> evm_wf auth s ->
+    evm_ask auth q <$> evm_init hash valid norm auth (evm_export_sel sel auth s) = Some (evm_ask auth q s).
+  Proof.
+    intros Hsound Hcov Hwf.
+    destruct (evm_init_export_obs sel auth s Hsound Hcov Hwf) as (s' & -> & Hp & Hst & Hcd & _). simpl.
+    f_equal. destruct q as [|a|a k|a]; simpl.
+    - by rewrite Hp.
+    - by rewrite (code_at_eq _ _ _ Hcd).
+    - by rewrite Hst.
+    - by rewrite Hst.
+  Qed.
+
+  (** *** the selection of the code: by the interface, for ALL states *)
+  Theorem evm_export_init_export auth s :
+    evm_wf auth s ->
+    evm_export auth <$> evm_init hash valid norm auth (evm_export auth s) = Some (evm_export auth s).
+  Proof. apply evm_sel_export_init_export; [apply implements_sound|apply implements_covers]. Qed.
+
   Theorem evm_query_equiv auth s q :
     evm_wf auth s ->
     evm_ask auth q <$> evm_init hash valid norm auth (evm_export auth s) = Some (evm_ask auth q s).
+  Proof. apply evm_sel_query_equiv; [apply implements_sound|apply implements_covers]. Qed.
+
+  (** init (export s) = s on the EVM projection: parameters, the storage of every address,
+      the code of every address -- whatever kind of account sits there *)
+  Theorem evm_init_export_projection auth s :
+    evm_wf auth s ->
+    exists s', evm_init hash valid norm auth (evm_export auth s) = Some s' /\
+      ev_params s' = ev_params s /\
+      (forall a, stor s' a = stor s a) /\
+      (forall a, code_at auth s' a = code_at auth s a).
   Proof.
-    intros Hwf. destruct (evm_init_export_obs auth s Hwf) as (s' & -> & Hp & Hst & Hcd & _). simpl.
-    f_equal. destruct q as [|a|a k|a]; simpl.
-    - by rewrite Hp.
-    - destruct (auth !! a) as [ch|] eqn:Ea; [|done]. by rewrite (Hcd _ _ Ea).
-    - by rewrite Hst.
-    - by rewrite Hst.
+    intros Hwf.
+    destruct (evm_init_export_obs implements_eth auth s implements_sound (implements_covers auth s) Hwf)
+      as (s' & Hi & Hp & Hst & Hcd & _).
+    exists s'. split; [done|]. split; [done|]. split; [done|]. by apply code_at_eq.
   Qed.
 
   (** InitGenesis re-establishes the invariant *)
   Corollary evm_init_wf_of_export auth s s' :
     evm_wf auth s -> evm_init hash valid norm auth (evm_export auth s) = Some s' -> evm_wf auth s'.
   Proof.
-    intros Hwf. destruct (evm_init_export_obs auth s Hwf) as (s'' & -> & _ & _ & _ & Hwf').
+    intros Hwf. unfold evm_export.
+    destruct (evm_init_export_obs implements_eth auth s implements_sound (implements_covers auth s) Hwf)
+      as (s'' & -> & _ & _ & _ & Hwf').
     by intros [= <-].
   Qed.
 
@@ -223,38 +311,185 @@ Section Evm.
     - by rewrite lookup_insert_ne.
   Qed.
 
-  Theorem evm_step_wf auth s o :
-    evm_wf auth s -> let '(auth', s') := evm_step hash valid norm (auth, s) o in evm_wf auth' s'.
+  (** SetState itself checks nothing.  Code runs, and so SSTORE happens, at an address whose
+      account carries a non-empty code hash or is being created: in both cases the account
+      implements EthAccountI -- unless a BaseAccount / ModuleAccount already sits at the
+      creation address (possible only for an account placed there by a genesis file). *)
+  Definition op_ok (auth : gmap N auth_acc) (o : evm_op) : bool :=
+    match o with
+    | EvSStore a _ _ => match auth !! a with Some (k, _) => implements_eth k | None => true end
+    | _ => true
+    end.
+
+  Lemma holds_evm_insert (auth : gmap N auth_acc) (a : N) k ch (a' : N) :
+    implements_eth k = true -> holds_evm auth a' -> holds_evm (<[a := (k, ch)]> auth) a'.
   Proof.
-    intros Hwf. pose proof Hwf as (Hc & Hs & Hv & Hn). destruct o as [a code|a|a k v|a|p]; simpl.
+    intros Hk (k' & ch' & Ha' & Hk'). destruct (decide (a = a')) as [->|Hne].
+    - exists k, ch. by rewrite lookup_insert.
+    - exists k', ch'. by rewrite lookup_insert_ne.
+  Qed.
+
+  Lemma holds_evm_insert_fresh (auth : gmap N auth_acc) (a : N) (x : auth_acc) (a' : N) :
+    auth !! a = None -> holds_evm auth a' -> holds_evm (<[a := x]> auth) a'.
+  Proof.
+    intros Hnone (k' & ch' & Ha' & Hk'). exists k', ch'. split; [|done].
+    rewrite lookup_insert_ne; [done|]. intros ->. congruence.
+  Qed.
+
+  Theorem evm_step_wf auth s o :
+    evm_wf auth s -> op_ok auth o = true ->
+    let '(auth', s') := evm_step hash valid norm (auth, s) o in evm_wf auth' s'.
+  Proof.
+    intros Hwf Hop. pose proof Hwf as (Hc & Hs & Hv & Hn).
+    assert (Hcodes : forall code, code <> 0%N -> consistent (<[hash code := code]> (ev_codes s))).
+    { intros code E h c. rewrite lookup_insert_Some. intros [[<- <-]|[_ H]]; [done|by apply Hc]. }
+    destruct o as [a code|a k|a|a|a k v|a|p]; simpl.
     - destruct (code =? 0)%N eqn:E; [exact Hwf|]. apply N.eqb_neq in E.
-      split; [|split; [|done]]; simpl.
-      + intros h c. rewrite lookup_insert_Some. intros [[<- <-]|[_ H]]; [done|by apply Hc].
-      + intros a' Hne. apply Hs in Hne. destruct (decide (a = a')) as [->|]; [by rewrite lookup_insert|by rewrite lookup_insert_ne].
-    - destruct (decide (is_Some (auth !! a))); [exact Hwf|].
+      destruct (auth !! a) as [[k ch]|] eqn:Ea.
+      + destruct (negb (ch =? hash 0)%N); [exact Hwf|].
+        destruct (implements_eth k) eqn:Ek.
+        * split; [by apply Hcodes|split; [|done]].
+          intros a' Hne. apply holds_evm_insert; [done|]. by apply Hs.
+        * split; [by apply Hcodes|split; [|done]]. exact Hs.
+      + split; [by apply Hcodes|split; [|done]].
+        intros a' Hne. apply holds_evm_insert; [done|]. by apply Hs.
+    - destruct (decide (is_Some (auth !! a))) as [|Hnone]; [exact Hwf|].
       split; [done|split; [|done]].
-      intros a' Hne. apply Hs in Hne. destruct (decide (a = a')) as [->|]; [by rewrite lookup_insert|by rewrite lookup_insert_ne].
-    - destruct (decide (is_Some (auth !! a))) as [Hsome|]; [|exact Hwf].
+      intros a' Hne. apply holds_evm_insert_fresh; [|by apply Hs].
+      by apply eq_None_not_Some.
+    - destruct (auth !! a) as [[[] ch]|] eqn:Ea; try exact Hwf.
+      destruct (ch =? hash 0)%N; [|exact Hwf].
       split; [done|split; [|done]].
-      intros a'. rewrite stor_set_state. destruct (decide (a = a')) as [<-|]; [done|apply Hs].
+      intros a' Hne. apply holds_evm_insert; [done|]. by apply Hs.
+    - destruct (auth !! a) as [[[] ch]|] eqn:Ea; try exact Hwf.
+      split; [done|split; [|done]].
+      intros a' Hne. apply holds_evm_insert; [done|]. by apply Hs.
+    - destruct (decide (is_Some (auth !! a))) as [[[k' ch] Hsome]|]; [|exact Hwf].
+      split; [done|split; [|done]].
+      intros a'. rewrite stor_set_state. destruct (decide (a = a')) as [<-|]; [|apply Hs].
+      intros _. exists k', ch. split; [done|]. simpl in Hop. by rewrite Hsome in Hop.
     - split; [done|split; [|done]].
       intros a'. unfold stor; simpl. destruct (decide (a = a')) as [<-|Hne].
       + rewrite lookup_delete. simpl. done.
-      + rewrite !lookup_delete_ne by done. apply Hs.
+      + rewrite !lookup_delete_ne by done. intros Hst.
+        destruct (Hs _ Hst) as (k & ch & Ha & Hk). exists k, ch. by rewrite lookup_delete_ne.
     - destruct (valid (norm p)) eqn:E; [|exact Hwf].
       split; [done|split; [done|]]. simpl. split; [done|apply norm_idem].
+  Qed.
+
+  (** a run all of whose SSTOREs hit accounts that implement EthAccountI *)
+  Fixpoint run_ok (as_ : gmap N auth_acc * evm_state) (ops : list evm_op) : bool :=
+    match ops with
+    | [] => true
+    | o :: r => op_ok as_.1 o && run_ok (evm_step hash valid norm as_ o) r
+    end.
+
+  Theorem evm_run_wf ops as_ :
+    evm_wf as_.1 as_.2 -> run_ok as_ ops = true ->
+    evm_wf (fold_left (evm_step hash valid norm) ops as_).1 (fold_left (evm_step hash valid norm) ops as_).2.
+  Proof.
+    revert as_. induction ops as [|o r IH]; intros [auth s] Hwf Hok; [exact Hwf|].
+    cbn [run_ok] in Hok. apply andb_true_iff in Hok as [Ho Hr]. cbn [fst] in Ho.
+    cbn [fold_left].
+    pose proof (evm_step_wf auth s o Hwf Ho) as H.
+    destruct (evm_step hash valid norm (auth, s) o) as [auth' s'].
+    apply IH; [exact H|exact Hr].
+  Qed.
+
+  Lemma evm_wf_empty p : valid p = true -> norm p = p -> evm_wf ∅ (mk_evm p ∅ ∅).
+  Proof.
+    intros Hv Hn. split; [|split; [|done]].
+    - intros h c H. simpl in H. by rewrite lookup_empty in H.
+    - intros a Hne. exfalso. apply Hne. unfold stor. simpl. by rewrite lookup_empty.
   Qed.
 End Evm.
 
 (** non-vacuity: a contract with code and storage, an EOA, a destroyed contract
-    (its code stays behind as an orphan and is not exported); toy hash = x + 1000 *)
+    (its code stays behind as an orphan and is not exported), a clawback vesting
+    account onto which a contract is deployed afterwards, an account that is
+    converted into a vesting account and back, a module account;
+    toy hash = x + 1000 *)
 Definition toy_hash (x : N) : N := (x + 1000)%N.
+Definition toy_ops : list evm_op :=
+  [EvNewAcc 1 KEth; EvCreate 2 77; EvSStore 2 5 9; EvSStore 2 3 0; EvCreate 3 88; EvSStore 3 1 1; EvDelete 3;
+   EvNewAcc 7 KClawback; EvCreate 7 66; EvSStore 7 0 42; EvNewAcc 8 KModule; EvToVesting 1; EvNewAcc 9 KEth;
+   EvToVesting 9; EvFromVesting 9; EvToVesting 2; EvSetParams 4]%N.
+Definition toy_step := evm_step toy_hash (fun _ : N => true) (fun p : N => p).
+Definition toy_run : gmap N auth_acc * evm_state := fold_left toy_step toy_ops (∅, mk_evm 0 ∅ ∅).
+
 Example evm_nonvacuous :
   let v := fun _ : N => true in let nm := fun p : N => p in
-  let '(auth, s) := fold_left (evm_step toy_hash v nm)
-      [EvNewEOA 1; EvCreate 2 77; EvSStore 2 5 9; EvSStore 2 3 0; EvCreate 3 88; EvSStore 3 1 1; EvDelete 3; EvSetParams 4]
-      (∅, mk_evm 0 ∅ ∅) in
-  evm_export auth s = mk_evmg 4 [mk_ea 1 0 []; mk_ea 2 77 [(3, 0); (5, 9)]%N] /\
+  let '(auth, s) := toy_run in
+  evm_export auth s = mk_evmg 4 [mk_ea 1 0 []; mk_ea 2 77 [(3, 0); (5, 9)]; mk_ea 7 66 [(0, 42)]; mk_ea 9 0 []]%N /\
+  map (fun x : N * auth_acc => (x.1, x.2.1)) (export_map auth)
+    = [(1, KClawback); (2, KEth); (7, KClawback); (8, KModule); (9, KEth)]%N /\
   (evm_export auth <$> evm_init toy_hash v nm auth (evm_export auth s)) = Some (evm_export auth s) /\
   ev_codes s !! 1088%N = Some 88%N.
 Proof. vm_compute. repeat split; reflexivity. Qed.
+
+Lemma toy_hash_inj x y : toy_hash x = toy_hash y -> x = y.
+Proof. unfold toy_hash. lia. Qed.
+
+(** the witness state satisfies the invariant: it is reached from the empty state by operations
+    all of whose SSTOREs hit accounts that implement EthAccountI *)
+Lemma toy_run_wf : evm_wf toy_hash (fun _ => true) (fun p => p) toy_run.1 toy_run.2.
+Proof.
+  apply (evm_run_wf toy_hash (fun _ => true) (fun p => p) (fun _ => eq_refl) toy_ops (∅, mk_evm 0 ∅ ∅)).
+  - by apply evm_wf_empty.
+  - vm_compute. reflexivity.
+Qed.
+
+(** The shape of the seeded defect: ExportGenesis selecting by the concrete type *EthAccount.
+    The selection is sound (InitGenesis accepts what it exports) but does not cover the witness
+    state, in which the clawback vesting account 7 holds the contract 66 with one storage slot:
+    its entry is missing from the document, and on the re-imported chain the code and the
+    storage of 7 are gone, while the selection by the interface keeps both. *)
+Lemma evm_concrete_selection_refuted_lemma :
+  let v := fun _ : N => true in let nm := fun p : N => p in
+  let auth := toy_run.1 in let s := toy_run.2 in
+  evm_wf toy_hash v nm auth s /\
+  sel_sound concrete_eth /\ ~ sel_covers concrete_eth auth s /\
+  auth !! 7%N = Some (KClawback, 1066%N) /\
+  evm_export_sel concrete_eth auth s = mk_evmg 4 [mk_ea 2 77 [(3, 0); (5, 9)]; mk_ea 9 0 []]%N /\
+  evm_ask auth (EvQCode 7) s = EvAN 66 /\
+  evm_ask auth (EvQStorage 7 0) s = EvAO (Some 42%N) /\
+  (evm_ask auth (EvQCode 7) <$> evm_init toy_hash v nm auth (evm_export_sel concrete_eth auth s)) = Some (EvAN 0) /\
+  (evm_ask auth (EvQStorage 7 0) <$> evm_init toy_hash v nm auth (evm_export_sel concrete_eth auth s)) = Some (EvAO None) /\
+  (evm_ask auth (EvQCode 7) <$> evm_init toy_hash v nm auth (evm_export auth s)) = Some (EvAN 66) /\
+  (evm_ask auth (EvQStorage 7 0) <$> evm_init toy_hash v nm auth (evm_export auth s)) = Some (EvAO (Some 42%N)).
+Proof.
+  cbv zeta. split; [exact toy_run_wf|]. split; [by intros []|]. split.
+  - intros Hcov.
+    assert (H : concrete_eth KClawback = true); [|done].
+    apply (Hcov 7%N KClawback 1066%N); [by vm_compute|done|].
+    right. vm_compute. eauto.
+  - vm_compute. repeat split; reflexivity.
+Qed.
+
+(** Outside the invariant: an account kind that cannot carry a code hash sitting at a contract creation
+    address (reproduced on the real code with a genesis file that holds an SDK BaseAccount at the CREATE
+    address of a deployer: the deployment succeeds, SetAccount has no code hash field to write, the
+    constructor's SSTOREs land under the address).  The run violates [run_ok], the state violates
+    [evm_wf], the account is not exported (and InitGenesis would refuse it), and its storage is gone
+    after the re-import.  The "contract" is dead from the start: no code answers at the address. *)
+Definition base_ops : list evm_op := [EvNewAcc 5 KBase; EvCreate 5 77; EvSStore 5 0 42; EvNewAcc 1 KEth]%N.
+Definition base_run : gmap N auth_acc * evm_state := fold_left toy_step base_ops (∅, mk_evm 0 ∅ ∅).
+
+Lemma evm_base_account_storage_refuted_lemma :
+  let v := fun _ : N => true in let nm := fun p : N => p in
+  let auth := base_run.1 in let s := base_run.2 in
+  run_ok toy_hash v nm (∅, mk_evm 0 ∅ ∅) base_ops = false /\
+  ~ evm_wf toy_hash v nm auth s /\
+  auth !! 5%N = Some (KBase, 1000%N) /\
+  evm_export auth s = mk_evmg 0 [mk_ea 1 0 []]%N /\
+  evm_ask auth (EvQCode 5) s = EvAN 0 /\
+  evm_ask auth (EvQStorage 5 0) s = EvAO (Some 42%N) /\
+  (evm_ask auth (EvQStorage 5 0) <$> evm_init toy_hash v nm auth (evm_export auth s)) = Some (EvAO None).
+Proof.
+  cbv zeta. split; [by vm_compute|]. split.
+  - intros (_ & Hs & _).
+    destruct (Hs 5%N) as (k & ch & Ha & Hk).
+    + intros H. apply (f_equal (fun m : gmap N N => m !! 0%N)) in H. vm_compute in H. discriminate.
+    + vm_compute in Ha. injection Ha as <- <-. discriminate.
+  - vm_compute. repeat split; reflexivity.
+Qed.
